@@ -54,6 +54,111 @@ func runSpecial(c *core.Ctx) []core.Obligation {
 			}
 		})
 	}
+	obs = append(obs, capRadiusArithmetic(c)...)
+	return obs
+}
+
+// capRadiusArithmetic: Cap.Radius() of the empty cap is the sentinel -1 radian. A Cap method that feeds Radius() into
+// arithmetic or an ordering comparison with computed angles does so only behind an emptiness test of a cap (IsEmpty() or
+// radius < 0) - when the larger cap of a pair is tested second-hand through the smaller one that still is a test.
+func capRadiusArithmetic(c *core.Ctx) []core.Obligation {
+	var obs []core.Obligation
+	for _, fn := range c.GeoFuncs() {
+		if fn.Signature.Recv() == nil || !core.IsNamed(fn.Signature.Recv().Type(), "s2", "Cap") {
+			continue
+		}
+		var uses []ssa.Instruction
+		core.AllInstrs(fn, func(in ssa.Instruction) {
+			call, ok := in.(*ssa.Call)
+			if !ok || core.StaticCallee(call) == nil || core.StaticCallee(call).Name() != "Radius" || core.StaticCallee(call).Signature.Recv() == nil ||
+				!core.IsNamed(core.StaticCallee(call).Signature.Recv().Type(), "s2", "Cap") {
+				return
+			}
+			// follow the value (through locals) into arithmetic
+			seen := map[ssa.Value]bool{}
+			var follow func(v ssa.Value, d int)
+			follow = func(v ssa.Value, d int) {
+				if seen[v] || d > 6 {
+					return
+				}
+				seen[v] = true
+				for _, r := range *v.Referrers() {
+					switch u := r.(type) {
+					case *ssa.BinOp:
+						switch u.Op {
+						case token.ADD, token.SUB, token.MUL, token.QUO:
+							uses = append(uses, u)
+						}
+					case *ssa.Store:
+						if al, isAl := u.Addr.(*ssa.Alloc); isAl {
+							for _, rr := range *al.Referrers() {
+								if ld, isLd := rr.(*ssa.UnOp); isLd && ld.Op == token.MUL {
+									follow(ld, d+1)
+								}
+							}
+						}
+					case *ssa.Convert, *ssa.ChangeType, *ssa.Phi:
+						follow(u.(ssa.Value), d+1)
+					}
+				}
+			}
+			follow(call, 0)
+		})
+		if len(uses) == 0 {
+			continue
+		}
+		// blocks that test emptiness
+		guards := map[*ssa.BasicBlock]bool{}
+		for _, b := range fn.Blocks {
+			iff, ok := b.Instrs[len(b.Instrs)-1].(*ssa.If)
+			if !ok {
+				continue
+			}
+			tests := false
+			var walk func(v ssa.Value, d int)
+			walk = func(v ssa.Value, d int) {
+				if d > 4 {
+					return
+				}
+				switch x := v.(type) {
+				case *ssa.Call:
+					if f := core.StaticCallee(x); f != nil && (f.Name() == "IsEmpty" || f.Name() == "isEmpty") {
+						tests = true
+					}
+				case *ssa.UnOp:
+					walk(x.X, d+1)
+				case *ssa.BinOp:
+					if _, isRad := capRadiusOwner(x.X); isRad {
+						if k, isK := x.Y.(*ssa.Const); isK && k.Value != nil && k.Value.String() == "0" {
+							tests = true
+						}
+					}
+					walk(x.X, d+1)
+					walk(x.Y, d+1)
+				}
+			}
+			walk(iff.Cond, 0)
+			if tests {
+				guards[b] = true
+			}
+		}
+		construct := "radius-arithmetic:" + core.FuncName(fn)
+		bad := false
+		for _, u := range uses {
+			if guards[fn.Blocks[0]] {
+				continue
+			}
+			if core.ReachableAvoiding(fn.Blocks[0], u.Block(), nil, guards) {
+				bad = true
+			}
+		}
+		if bad {
+			obs = append(obs, core.Ob("R-SPECIAL", construct, c.Pos(fn.Pos()), core.FuncName(fn), core.Violated,
+				"Radius() of a cap enters arithmetic on a path that tests no cap for emptiness: the empty cap's radius is the sentinel -1 radian and its centre is arbitrary, so the result is an ordinary cap computed from them (a union with the empty cap that is larger than the other operand, or a non-empty union of two empty caps)"))
+		} else {
+			obs = append(obs, core.Ob("R-SPECIAL", construct, c.Pos(fn.Pos()), core.FuncName(fn), core.Discharged, fmt.Sprintf("%d arithmetic uses of Radius(), all behind an emptiness test", len(uses))))
+		}
+	}
 	return obs
 }
 
